@@ -70,6 +70,7 @@ struct Stmt {
   string mkdd;   // this statement's command writes that dyndep file
   int ver = 1, rspver = 1;
   bool badrspdir = false;  // rspfile in a directory that cannot be created
+  bool rspnone = false;    // rspfile and rspfile_content are bound, but the path evaluates to nothing: no file is written, the content still counts
   string genlvl;           // "": the generator flag (gen) sits on the rule; "build": set on the build statement; "cleared": the rule says generator = 1, the statement clears it (gen = false)
   vector<string> outp;     // what the command prints, as a list of piece kinds (see RenderOutput)
   // "header switch" statement: reads hdrs while the source hsel has its first content, hdrs2 afterwards; writes a constant
@@ -112,6 +113,7 @@ static Stmt ParseStmt(const JV& j) {
   s.badrspdir = j["badrspdir"].boolean();
   s.outp = j["outp"].strs();
   s.genlvl = j["genlvl"].str();
+  s.rspnone = j["rspnone"].boolean();
   s.hsel = j["hsel"].str(); s.hdrs2 = j["hdrs2"].strs();
   s.split = j["split"].boolean();
   return s;
@@ -295,7 +297,7 @@ static string DdText(const Scenario& sc, const string& dd) {
 // later versions are shorter: a response file written over a leftover one must not keep the old tail
 // (version 0: a content that evaluates to nothing - the response file is written all the same, empty)
 static string RspContent(const Stmt& s) { if (s.rspver == 0) return ""; return "rsp-e" + to_string(s.id) + "-v" + to_string(s.rspver) + string(5 * std::max(0, 3 - s.rspver), 'x'); }
-static string RspPath(const Stmt& s) { return (s.badrspdir ? string("nodir/") : string("")) + s.outs[0] + ".rsp"; }
+static string RspPath(const Stmt& s) { if (s.rspnone) return ""; return (s.badrspdir ? string("nodir/") : string("")) + s.outs[0] + ".rsp"; }
 
 static string RenderManifest(const Scenario& sc) {
   string m;
@@ -311,7 +313,7 @@ static string RenderManifest(const Scenario& sc) {
     if (s.deps == "gcc" && s.id % 2) m += "  deps = gcc\n";
     if (s.deps == "msvc" && s.id % 2) m += "  deps = msvc\n";
     if (s.deps == "msvc" && s.id % 2 == 0) m += "  msvc_deps_prefix = Hinweis: Einlesen der Datei: \n";
-    if (s.rsp) m += "  rspfile = " + RspPath(s) + "\n  rspfile_content = " + (s.rspver == 0 ? string("$nothing") : RspContent(s)) + "\n";
+    if (s.rsp) m += "  rspfile = " + (s.rspnone ? string("$norsp") : RspPath(s)) + "\n  rspfile_content = " + (s.rspver == 0 ? string("$nothing") : RspContent(s)) + "\n";
   }
   for (auto& s : sc.stmts) {
     m += "build " + Join(s.outs);
@@ -457,6 +459,7 @@ struct ModelRunner : public CommandRunner {
     if (st->rsp) {
       auto f = g_disk.files.find(RspPath(*st));
       string txt = f == g_disk.files.end() ? string("<no rspfile>") : f->second.content;
+      if (st->rspnone) txt = RspContent(*st);   // nothing to read: the command gets the text on its command line
       ver += "|" + txt;
       rspseen = JEsc(txt);
     }
